@@ -36,8 +36,9 @@ def mutants(prog):
         ("ExpFlow drops align", M, "ExpFlow.forward", ", align_corners=self.align_corners)", ")", "T11x.expflow"),
         ("ExpFlow inverse mutates self", M, "ExpFlow.inverse", "copy = shallow_copy(self)", "copy = self", "T11x.expflow"),
         ("ExpFlow inverse keeps sign", M, "ExpFlow.inverse", "copy.scale *= -1", "copy.scale *= 1", "T11x.expflow"),
+        ("expv: sampling grid in default precision", F, "expv", "grid.coords(dtype=flow.dtype, device=device)", "grid.coords(device=device)", "T11x.dtype"),
+        ("svf inverse: forward exponential", "deepali.spatial.nonrigid", "StationaryVelocityFieldTransform.inverse", "u = inv.exp(v)", "u = self.exp(v)", "T67.inverse-velocity"),
     ]
     for name, mod, fn, old, new, expect in specs:
         ov = source_sub(prog, mod, fn, old, new)
-        if ov is not None:
-            yield (name, ov, expect)
+        yield (name if ov is not None else name + " [spec does not apply]", ov, expect)
